@@ -317,6 +317,22 @@ func scripts() []scriptCase {
 			"CREATE INDEX i_very_long_index_name_very_long_index_name_very_long_index_name_very_long_index_name_very_long_index_name_very_long_index_name_very_long_index_name_very_long_index_name_very_long_index_name_end ON t_very_long_table_name_very_long_table_name_very_long_table_name_very_long_table_name_very_long_table_name_very_long_table_name_very_long_table_name_very_long_table_name_very_long_table_name_end (v DESC, c_very_long_column_name_very_long_column_name_very_long_column_name_very_long_column_name_very_long_column_name_very_long_column_name_very_long_column_name_very_long_column_name_very_long_column_name_end)",
 			"CREATE TABLE longchild (id INTEGER NOT NULL PRIMARY KEY, c_very_long_column_name_very_long_column_name_very_long_column_name_very_long_column_name_very_long_column_name_very_long_column_name_very_long_column_name_very_long_column_name_very_long_column_name_end INTEGER, CONSTRAINT k_very_long_constraint_very_long_constraint_very_long_constraint_very_long_constraint_very_long_constraint_very_long_constraint_very_long_constraint_very_long_constraint_very_long_constraint_end_fk FOREIGN KEY (c_very_long_column_name_very_long_column_name_very_long_column_name_very_long_column_name_very_long_column_name_very_long_column_name_very_long_column_name_very_long_column_name_very_long_column_name_end) REFERENCES t_very_long_table_name_very_long_table_name_very_long_table_name_very_long_table_name_very_long_table_name_very_long_table_name_very_long_table_name_very_long_table_name_very_long_table_name_end (c_very_long_column_name_very_long_column_name_very_long_column_name_very_long_column_name_very_long_column_name_very_long_column_name_very_long_column_name_very_long_column_name_very_long_column_name_end))",
 		}},
+		// numeric defaults in spellings other than the canonical one, kept apart so that each is keyed alone
+		{"default-number-plus-sign", []string{
+			"CREATE TABLE dnp (id INTEGER PRIMARY KEY, a INTEGER DEFAULT +5, b REAL DEFAULT +0.5)",
+		}},
+		{"default-number-exponent", []string{
+			"CREATE TABLE dne (id INTEGER PRIMARY KEY, a REAL DEFAULT 1.5e3, b REAL DEFAULT 2E-2, c NUMERIC DEFAULT 1e2)",
+		}},
+		{"default-number-trailing-zero", []string{
+			"CREATE TABLE dnz (id INTEGER PRIMARY KEY, a REAL DEFAULT 1.50, b DECIMAL(10,5) DEFAULT 10.00, c REAL DEFAULT .5, d REAL DEFAULT 5.)",
+		}},
+		{"default-number-hex-negative", []string{
+			"CREATE TABLE dnh (id INTEGER PRIMARY KEY, a INTEGER DEFAULT 0x1F, b INTEGER DEFAULT -0, c INTEGER DEFAULT 9223372036854775807, d REAL DEFAULT -1.0)",
+		}},
+		{"default-string-on-int-column", []string{
+			"CREATE TABLE dsi (id INTEGER PRIMARY KEY, a INT DEFAULT 'n/a', c REAL DEFAULT 'none', d BOOLEAN DEFAULT 'yes', e DECIMAL(10,2) NOT NULL DEFAULT 'n. a.')",
+		}},
 		{"rename-rewritten", []string{
 			"CREATE TABLE rn0 (id INTEGER PRIMARY KEY AUTOINCREMENT, v text CONSTRAINT rn_ck CHECK (v <> ''), p integer CONSTRAINT rn_fk REFERENCES rn0 (id))",
 			"ALTER TABLE rn0 RENAME TO rn",
